@@ -115,6 +115,29 @@ def _work(job):
                 fails.append({'kind': 'space', 'skind': kind, 'shape': shape, 'types': types, 'colours': colours, 'rep': repname,
                               'member': m, 'message': f'{kind} space {shape} types {list(types)} colours {list(colours)} [{repname}]: {msg}',
                               'sig': {'rep': repname, 'kind': kind}, 'simplicity': len(types) * 10 + len(colours)})
+    if kept:
+        # a class named like a library type is defined later in the process (a user's own `Key`, a reloaded module):
+        # the encoding of the already existing types must not move
+        from gym_gridverse.grid_object import GridObject
+
+        def _define():
+            class Key(GridObject):  # noqa: F811 -- same NAME as the library's Key, a different class
+                state_index = 0
+                color = kept[0][5].space and __import__('gym_gridverse.grid_object', fromlist=['Color']).Color.NONE
+                blocks_movement = False
+                blocks_vision = False
+                holdable = True
+
+                @classmethod
+                def can_be_represented_in_state(cls):
+                    return True
+
+                @classmethod
+                def num_states(cls):
+                    return 1
+            return Key
+
+        _define()
     for kind, shape, types, colours, repname, rep0, space0, gym0, mem in kept:
         for mo in mem:
             n += 1
